@@ -165,6 +165,18 @@ CLAIMED = {
         "sequences is future growth); bit-identity decided by the harness. One stored layout of 3-4 chunks is used as the source.",
    technique="execution of the operation matrix on real storage + TLC-evaluated P-level (StorageRT.tla) on recorded observations",
    design="4/C16"),
+ "C14": dict(
+   text="Superruns of 1..4 subruns (definition order != start order, differing chunk layouts incl. empty and zero-duration chunks) are "
+        "requested on real run metadata with the superrun-capable level at two depths of a 3-plugin chain, combined on the fly or "
+        "written (with and without rechunking across subrun borders) and re-read, on both processors; yielded chunks, stored chunks "
+        "and stored chunk metadata with their subruns annotations, and is_stored after redefinition are recorded and judged by TLC "
+        "against spec/SuperrunObs.tla (ordered concatenation of the subruns' rows; each chunk's annotation names known subruns in "
+        "order with spans that contain its rows; the spans of every subrun tile that subrun's own range; redefinition makes stored "
+        "data unavailable). The annotation algebra under split / concatenate is model-checked in spec/Chunks.tla (C07).",
+   note="The specification part is the P-level predicate module SuperrunObs.tla; subruns do not overlap in time; run start times come "
+        "from run metadata written by the harness.",
+   technique="execution of the superrun scenario matrix on real contexts + TLC-evaluated P-level (SuperrunObs.tla) on recorded chunks and annotations",
+   design="4/C14"),
 }
 NOT_BUILT = "decision procedure (TLA+ module + binding) not built yet in this session; see DESIGN.md section 4 for the plan"
 
